@@ -63,24 +63,25 @@ with suppress(ImportError):
             )
         colors = (65536 + 256 + 1) * data
 
+        # The first axis runs to the right, the second one upwards (as the labels say)
         print(
             (value_format(h2.get_bin_right_edges(0)[-1]) + " →").rjust(
-                h2.shape[1] + 2, " "
+                h2.shape[0] + 2, " "
             )
         )
-        print("+" + "-" * h2.shape[1] + "+")
-        for i in range(h2.shape[0] - 1, -1, -1):
+        print("+" + "-" * h2.shape[0] + "+")
+        for j in range(h2.shape[1] - 1, -1, -1):
             line_frags = [
                 xtermcolor.colorize("█", bg=0, rgb=colors[i, j])
-                for j in range(h2.shape[1])
+                for i in range(h2.shape[0])
             ]
             line = "|" + "".join(line_frags) + "|"
-            if i == h2.shape[0] - 1:
+            if j == h2.shape[1] - 1:
                 line += value_format(h2.get_bin_right_edges(1)[-1]) + " ↑"
-            if i == 0:
+            if j == 0:
                 line += value_format(h2.get_bin_left_edges(1)[0]) + " ↓"
             print(line)
-        print("+" + "-" * h2.shape[1] + "+")
+        print("+" + "-" * h2.shape[0] + "+")
         print("←", value_format(h2.get_bin_left_edges(0)[0]))
         colorbar_frags = [
             xtermcolor.colorize(
